@@ -1200,6 +1200,9 @@ func (e *E) Read() {
 			var cerr error
 			e.R.MustComplete("CountField", func() { n, cerr = cfg.CountField(name, ro...) })
 			e.R.Tracef("CountField(%q)%s = %d, %v   [model: %s]", name, via, n, cerr, describeOutcome(o))
+			if _, typed := cerr.(ucfg.Error); cerr != nil && !typed {
+				e.R.Note("C14", "error-typed/CountField")
+			}
 			switch {
 			case o.E == EOK && (o.V.K == VDict || o.V.K == VList):
 				if cerr != nil {
